@@ -17,6 +17,8 @@
 //!   y     tokio::task::yield_now().await                          j<T>  await the JoinHandle of task T
 //!   z<D>  des::time::sleep(D ns).await                            u<T>  des::time::sleep_until(T ns).await
 //!   n<K>  Notify::notify_waiters() on condition K (K % 3 == 2)
+//!   t<K>:<D>  des::time::timeout(D ns, notified()).await on Notify K (K % 3 == 2): the await and a Sleep at once,
+//!             the loser is dropped
 //! Condition K is a real tokio primitive chosen by K % 3:
 //!   0 Semaphore (wake = add_permits(1), await = acquire().await + forget); any number of waiting tasks
 //!   1 mpsc::unbounded_channel (wake = send(()) from anywhere, await = recv().await by ONE receiving task)
@@ -55,6 +57,7 @@ enum Ins {
     Sleep(u64),
     SleepUntil(u64),
     NotifyAll(u32),
+    WaitT(u32, u64),
 }
 
 fn parse_ins(tok: &str, out: &mut Vec<Ins>) {
@@ -66,6 +69,16 @@ fn parse_ins(tok: &str, out: &mut Vec<Ins>) {
         return;
     }
     let (op, arg) = body.split_at(1);
+    if op == "t" {
+        if let Some((k, d)) = arg.split_once(':') {
+            if let (Ok(k), Ok(d)) = (k.parse::<u32>(), d.parse::<u64>()) {
+                for _ in 0..rep {
+                    out.push(Ins::WaitT(k, d));
+                }
+            }
+        }
+        return;
+    }
     let n = arg.parse::<u32>().ok();
     let ins = match (op, n) {
         ("z", _) if arg.parse::<u64>().is_ok() => Ins::Sleep(arg.parse::<u64>().unwrap()),
@@ -201,6 +214,15 @@ fn run_task(w: Arc<World>, tag: u32) -> Pin<Box<dyn Future<Output = ()> + Send>>
                     tokio::task::yield_now().await;
                     w.record(tag);
                 }
+                Ins::WaitT(k, d) => {
+                    match w.conds.get(&k) {
+                        Some(Cond::Note(n)) => {
+                            let _ = des::time::timeout(Duration::from_nanos(d), n.notified()).await;
+                        }
+                        _ => wait(&w, k).await,
+                    }
+                    w.record(tag);
+                }
                 Ins::Sleep(d) => {
                     des::time::sleep(Duration::from_nanos(d)).await;
                     w.record(tag);
@@ -325,7 +347,7 @@ fn simulate(s: &Script) -> (&'static str, Vec<(u64, u32)>) {
     let mut conds = HashMap::new();
     let mut note = |prog: &Vec<Ins>| {
         for ins in prog {
-            if let Ins::Wake(k) | Ins::Wait(k) | Ins::NotifyAll(k) = *ins {
+            if let Ins::Wake(k) | Ins::Wait(k) | Ins::NotifyAll(k) | Ins::WaitT(k, _) = *ins {
                 conds.entry(k).or_insert_with(|| match k % 3 {
                     0 => Cond::Sem(Semaphore::new(0)),
                     1 => {
@@ -567,7 +589,7 @@ pub fn gen(seed: u64, count: usize, thorough: bool) -> String {
             } else {
                 g.r.range(1, 8)
             };
-            match g.r.below(18) {
+            match g.r.below(20) {
                 0 => {
                     // burst: n tasks ready at once
                     for _ in 0..n {
@@ -694,6 +716,50 @@ pub fn gen(seed: u64, count: usize, thorough: bool) -> String {
                             let loc = g.kind(mode);
                             let t = g.task(loc, vec![]);
                             evs[e2].push(format!("s{t}"));
+                        }
+                    }
+                }
+                17 | 18 => {
+                    // timeouts: an await on a Notify and a Sleep at once; the wake comes before, at, or after the
+                    // deadline, or never; several tasks may share the Notify and the deadline
+                    let m = if big { *g.r.pick(&[1u64, 30, 62, 200]) } else { g.r.range(1, 5) };
+                    let shared = g.r.chance(1, 2);
+                    let mut k = g.cond_of(2);
+                    let base = times[e];
+                    let e2 = g.r.range(e as u64, nev as u64 - 1) as usize;
+                    let dl = match g.r.below(4) {
+                        0 => times[e2],
+                        1 => times[e2] + 1,
+                        2 => base + g.r.range(0, 3000),
+                        _ => times[nev - 1] + g.r.range(1, 100_000),
+                    };
+                    let mut ks = Vec::new();
+                    for _ in 0..m {
+                        if !shared {
+                            k = g.cond_of(2);
+                        }
+                        ks.push(k);
+                        let loc = g.kind(mode);
+                        let mut prog = vec![format!("t{k}:{}", dl.saturating_sub(base))];
+                        if g.r.chance(1, 3) {
+                            prog.push(format!("t{k}:{}", g.r.range(0, 2000)));
+                        }
+                        let t = g.task(loc, prog);
+                        evs[e].push(format!("s{t}"));
+                    }
+                    // wakes: by the handler of a work event, by a task, by a consumed message, or by another module
+                    for _ in 0..g.r.below(m + 2) {
+                        let kk = *g.r.pick(&ks);
+                        let ins = if g.r.chance(1, 4) { format!("n{kk}") } else { format!("w{kk}") };
+                        match g.r.below(4) {
+                            0 => {
+                                let loc = g.kind(mode);
+                                let p = g.task(loc, vec![ins]);
+                                evs[e2].push(format!("s{p}"));
+                            }
+                            1 => cevs.push((e2, vec![ins])),
+                            2 => xevs.push((e2, vec![ins])),
+                            _ => evs[e2].push(ins),
                         }
                     }
                 }
